@@ -1020,6 +1020,9 @@ def multiplicity(ctx, f, root, tol=None, maxsteps=10, **kwargs):
             df = lambda x: ctx.diff(f, x, i)
         if not abs(df(root)) < tol:
             break
+    else:
+        # all maxsteps derivatives vanish
+        i = maxsteps
     return i
 
 def steffensen(f):
